@@ -9,121 +9,16 @@ overflow panic of a build with `overflow-checks` on — when it does not.  `unre
 written as the operation of the *target* type, so a cast that would change the value is a
 fault too.
 
-Each function below follows its Rust source operation by operation, in source order, with
-the Rust types.  Lemmas/CheckedEq.lean proves that, for arguments within the parameter types
+The inner.rs kernels are in Model/CheckedInner.lean, which is GENERATED from the Rust source by
+bin/srcgen and regenerated and compared on every run.  Each function below (lib.rs) follows its
+Rust source operation by operation, in source order, with the Rust types.  Lemmas/CheckedEq.lean proves that, for arguments within the parameter types
 (and, for the private helpers, within the ranges their callers establish), every one of them
 returns `some` of what the unbounded model (Model/Inner.lean, Model/Calendar.lean,
 Model/Time.lean) computes: no operation overflows, so no answer is the product of wrapped
 arithmetic.
 -/
-import JulianVerif.Model.Time
-import JulianVerif.Model.Iter
+import JulianVerif.Model.CheckedInner
 namespace JV.Chk
-
-def i32 (x : Int) : Option Int := if inI32 x then some x else none
-def u32 (x : Int) : Option Int := if inU32 x then some x else none
-def i64 (x : Int) : Option Int := if inI64 x then some x else none
-
-/-! ### inner.rs -/
-
-/-- inner.rs `decompose_julian(days: i32) -> (i32, u32)` -/
-def decomposeJulian (days : Int) : Option (Int × Int) := do
-  let q ← i32 (days / 1461)                 -- days.div_euclid(1461)
-  let year ← i32 (q * 4)                    -- … * 4
-  let ordinal ← i32 (days % 1461)           -- days.rem_euclid(1461)
-  let ordinal ←
-    if ordinal > 365 then do
-      let a ← i32 (ordinal - 366)           -- ordinal - LEAP_YEAR_LENGTH
-      let b ← i32 (a / 365)                 -- .div_euclid(365)
-      i32 (ordinal + b)                     -- ordinal += …
-    else pure ordinal
-  let c ← i32 (ordinal / 366)               -- ordinal.div_euclid(366)
-  let year ← i32 (year + c)                 -- year += …
-  let ordinal ← i32 (ordinal.tmod 366)      -- ordinal %= 366
-  let o1 ← i32 (ordinal + 1)                -- ordinal + 1
-  let o1 ← u32 o1                           -- as u32
-  pure (year, o1)
-
-/-- inner.rs `jdn2julian` -/
-def jdn2julian (jd : Int) : Option (Int × Int) := do
-  let (year, ordinal) ← decomposeJulian jd
-  let year ← i32 (year + -4712)
-  pure (year, ordinal)
-
-/-- inner.rs `compose_julian(years: i32, ordinal: u32) -> Option<i32>`;
-outer `none` = panic, inner `none` = the function's own `None` -/
-def composeJulian (years ordinal : Int) : Option (Option Int) :=
-  if years < -5879490
-      || (years == -5879490 && ordinal < 75)
-      || (years == 5879489 && ordinal > 290)
-      || years > 5879489 then some none
-  else if !(ordinal > 0) then none           -- debug_assert!(ordinal > 0)
-  else do
-    let commonDays ← i32 (years * 365)
-    let a ← i32 (years + 4)
-    let a ← i32 (a - 1)
-    let leapDays ← i32 (a / 4)
-    let o ← u32 (ordinal - 1)
-    let o ← i32 o                            -- as Jdnum
-    let b ← i32 (leapDays + o)
-    let r ← i32 (commonDays + b)
-    pure (some r)
-
-/-- inner.rs `julian2jdn` -/
-def julian2jdn (year ordinal : Int) : Option (Option Int) :=
-  if inI32 (year - -4712) then composeJulian (year - -4712) ordinal else some none
-
-/-- inner.rs `jdn2gregorian(jd: i32) -> (i32, u32)` -/
-def jdn2gregorian (jd : Int) : Option (Int × Int) := do
-  let (offset, yearOffset) : Int × Int := if jd < 0 then (-32104, -4800) else (113993, -4400)
-  let jd ← i32 (jd - offset)
-  let quads ← i32 (jd / 146097)
-  let quadPoint ← i32 (jd % 146097)
-  -- `quad_point.checked_sub(366)` is `Some` whenever the difference fits; otherwise the
-  -- addition is skipped
-  let quadPoint ←
-    if inI32 (quadPoint - 366) then do
-      let t ← i32 ((quadPoint - 366).tdiv 36524)
-      i32 (quadPoint + t)
-    else pure quadPoint
-  let (ys, ordinal) ← decomposeJulian quadPoint
-  let a ← i32 (quads * 400)
-  let a ← i32 (a + ys)
-  let year ← i32 (a + yearOffset)
-  pure (year, ordinal)
-
-/-- inner.rs `gregorian2jdn(year: i32, ordinal: u32) -> Option<i32>` -/
-def gregorian2jdn (year ordinal : Int) : Option (Option Int) :=
-  if year < -5884323
-      || (year == -5884323 && ordinal < 135)
-      || (year == 5874898 && ordinal > 154)
-      || year > 5874898 then some none
-  else do
-    let a ← i32 (year - 1)
-    let a ← i32 (a / 100)
-    let centennials ← i32 (a + 48)
-    let quads ← i32 (centennials / 4)
-    let ydiff ← i32 (year + 4712)
-    let a ← i32 (ydiff + (4 - 1))
-    let a ← i32 (a / 4)
-    let b ← i32 (centennials - quads)
-    let leapDays ← i32 (a - b)
-    let yearDays ← i32 (ydiff * 365)
-    let o ← u32 (ordinal - 1)
-    let o ← i32 o                            -- as Jdnum
-    let offset ← i32 (o + 38)
-    let s ← i32 (yearDays + offset)
-    let r ← i32 (s + leapDays)
-    pure (some r)
-
-/-- inner.rs `GapKind::for_dates` -/
-def gapKindForDates (preYear : Int) (preMonth : Month) (postYear : Int) (postMonth : Month) :
-    Option GapKind :=
-  if preYear == postYear then
-    pure (if preMonth == postMonth then .intraMonth else .crossMonth)
-  else do
-    let n ← i32 (preYear + 1)
-    pure (if n == postYear then .crossYear else .multiYear)
 
 /-! ### lib.rs: `MonthShape` -/
 
